@@ -151,6 +151,8 @@ def run_one(s):
                 if op["static"]:
                     smp = smp.make_static()
                 cls = tp.conditions.PINNCondition if op["kind"] == "pinn" else tp.conditions.MeanCondition
+                if op.get("track") is False:
+                    kw["track_gradients"] = False
                 return cls(model, smp, res, data_functions=use, **kw)
             r = watched(build)
             if r[0] != "ok":
